@@ -103,6 +103,22 @@ func init() {
 				tick("lease+"),
 			},
 		}
-		return []*hist.Scenario{a, b, c, e, f}
+		// a seek over a key whose middle message was retired into the dead-letter topic
+		// (not acknowledged): whatever the seek revives, the key's order must hold
+		g := &hist.Scenario{
+			ID: "C05/ordered+deadletter+seek", Prop: "C05", Depth: d(tier, 6, 7), Drain: true, PastForeign: true,
+			Cfg: model.Cfg{Topics: []string{"T0", "TD"}, Subs: []model.SubCfg{
+				{Name: "S0", Topic: "T0", Ordered: true, DLTopic: "TD", MaxAttempts: 1},
+				{Name: "SD", Topic: "TD"},
+			}},
+			Prelude: []model.Op{pubN("T0", "K1", "K1", "K1")},
+			Alphabet: []model.Op{
+				pull("S0", 1), pull("S0", 10),
+				ack("S0", "oldest"), nack("S0", "oldest"),
+				seekT("S0", "before-all"),
+				tick("lease+"),
+			},
+		}
+		return []*hist.Scenario{a, b, c, e, f, g}
 	}
 }
